@@ -583,6 +583,7 @@ func runSched(sc kit.Scenario, out *kit.Out) error {
 
 func main() {
 	kit.Main(func(scs []kit.Scenario, out *kit.Out) error {
+		settle.ChunkSize = 100 // the cost of recognising a blocked goroutine grows with the goroutines left behind
 		if settle.ShouldChunk(scs) {
 			return settle.Chunked(scs, out)
 		}
